@@ -7,6 +7,8 @@ import (
 	"fmt"
 	"net"
 	"time"
+
+	sadns "github.com/bokysan/socketace/v2/internal/streams/dns"
 )
 
 // C15 `stall <kind> <point> <m> <hold> <sf|gf>`: as `stall <kind> <point> <m>`, and the well-behaved client's session is
@@ -31,6 +33,13 @@ func echoAgain(c net.Conn, n int, seed uint64, d time.Duration) error {
 }
 
 func stallHold(kind, point string, m int, hold time.Duration, goodFirst bool) (string, string) {
+	if kind == "dns" {
+		// the DNS endpoint retires silent sessions after ConnectionTimeout (stock: 5 minutes, checked once a minute);
+		// shortened so that the retirement falls inside the hold
+		old := sadns.ConnectionTimeout
+		sadns.ConnectionTimeout = 5 * time.Second
+		defer func() { sadns.ConnectionTimeout = old }()
+	}
 	rig, err := NewRig(RigOpts{Carrier: kind, Insecure: true})
 	if err != nil {
 		return "fail:rig", err.Error()
@@ -80,6 +89,25 @@ func stallHold(kind, point string, m int, hold time.Duration, goodFirst bool) (s
 		return "disturbed", fmt.Sprintf("%v after a well-behaved client had established its session next to %d peer(s) stalled at %q, a new logical connection gets no echo: %v", hold, m, point, err)
 	}
 	c2.Close()
+	// a client that arrives only now completes its handshake and moves data
+	if dial2, close2, err := rig.SecondClient(); err == nil {
+		defer close2()
+		var lastErr error
+		ok := false
+		for try := 0; try < 2 && !ok; try++ {
+			c3, err := dial2("echo")
+			if err == nil {
+				if err = echoAgain(c3, 64, 12, 15*time.Second); err == nil {
+					ok = true
+				}
+				c3.Close()
+			}
+			lastErr = err
+		}
+		if !ok {
+			return "disturbed", fmt.Sprintf("%v after %d peer(s) had stalled at %q (and stayed), a client that connects only now gets no echo within 15s: %v", hold, m, point, lastErr)
+		}
+	}
 	return "served", ""
 }
 
